@@ -23,6 +23,7 @@ ASSUMPTIONS = [
     "thorough tier additionally runs chains against scripted loopback TLS servers (family live)",
 ]
 
+_CLIENT = None
 POOL = ["gemini://a/", "gemini://b/", "gemini://c/x", "gemini://d:1966/", "gemini://a/y?q", "gemini://e/"]
 ODD_TARGETS = ["", "/relative", "relative/path", "http://a/", "https://b/x", "titan://a/up;size=0", "GEMINI://a/", "gemini:/a", "gemini:a",
                "gemini://", "gemini://u@a/", "gemini://a/#frag", "gemini://a/" + "p" * 1100, "//a/", "gemini://a:99999/", "mailto:x@y", " gemini://a/"]
@@ -80,7 +81,11 @@ class Graph(Family):
             return GeminiResponse(status=e[1], meta=e[2], url=url)
 
         async def go():
-            client = GeminiClient(max_redirects=case["max"], verify_ssl=False, trust_on_first_use=False)
+            global _CLIENT
+            if _CLIENT is None:
+                _CLIENT = GeminiClient(max_redirects=5, verify_ssl=False, trust_on_first_use=False)
+            client = _CLIENT
+            client.max_redirects = case["max"]
             client._get_single = fake_single  # type: ignore[method-assign]
             try:
                 r = await client.get(case["start"], follow_redirects=case["follow"])
